@@ -162,6 +162,25 @@ func c16Observe(c *core.Ctx, mask int, other string, want rules.CosmeticOption) 
 	// of the request itself still decides the options.
 	judge("NewMatchingResult(with the same rules as referrer rules)", rules.NewMatchingResult(append([]*rules.NetworkRule(nil), rs...), append([]*rules.NetworkRule(nil), rs...)).GetCosmeticOption())
 
+	// A caller may evaluate the slice it holds more than once (first without,
+	// then with the rules of the referrer): a cancelled pair - an important
+	// blocking rule and its $badfilter twin - next to the exception leaves the
+	// exception as the verdict every time.
+	if other == "" {
+		bf, e1 := rules.NewNetworkRule("||example.org^$important,badfilter", 1)
+		bl, e2 := rules.NewNetworkRule("||example.org^$important", 1)
+		if e1 == nil && e2 == nil {
+			held := util.Shuffle(c.Rng, []*rules.NetworkRule{bf, bl, r})
+			if c.Rng.Intn(2) == 0 {
+				held = []*rules.NetworkRule{bf, bl, r}
+			}
+			for call := 1; call <= 3; call++ {
+				judge(fmt.Sprintf("NewMatchingResult(cancelled important pair next to the exception, evaluation %d of the same slice)", call), rules.NewMatchingResult(held, nil).GetCosmeticOption())
+			}
+			c.Event("slices_evaluated_three_times", 1)
+		}
+	}
+
 	// Path 2: the full engine on a document request.
 	list := []string{text, "##.generic-banner", "~excluded.example##.generic-with-exclusion", "example.org##.specific-banner", "example.*##.specific-wildcard", "other.example##.not-here"}
 	if other != "" {
@@ -202,7 +221,10 @@ func c16Observe(c *core.Ctx, mask int, other string, want rules.CosmeticOption) 
 				content, rest = content[:at], content[at:]
 				c.Event("file_backed_lists_that_grow_after_they_are_opened", 1)
 			}
-			if os.WriteFile(fn, []byte(util.ChopEOL(content)), 0o644) == nil {
+			if rest == "" {
+				content = util.ChopEOL(content)
+			}
+			if os.WriteFile(fn, []byte(content), 0o644) == nil {
 				if fl, ferr := filterlist.NewFileRuleList(0, fn, false); ferr == nil {
 					if rest != "" {
 						if af, aerr := os.OpenFile(fn, os.O_WRONLY|os.O_APPEND, 0o644); aerr == nil {
